@@ -1430,8 +1430,68 @@ pub fn amplify_sites(fx: &Fixture, parts: &mut Parts, n: u32) -> Vec<Vec<StoredF
                     out.push(vec![zp("xl/_rels/workbook.xml.rels", Edit::Repeat { off: m, pattern: b"<Relationship Id=\"rIdX{#}\" Type=\"t\" Target=\"worksheets/none{#}.xml\"/>".to_vec(), count: n, start: 1, step: 1, le: vec![] }, format!("xml:amplify workbook.xml.rels {} generated relationships", n))]);
                 }
             }
+            // deeply nested unknown elements and long runs of entity references / child elements
+            if let Some(sheet) = with_rows.as_ref() {
+                if let Some(data) = parts.part(sheet) {
+                    if let Some(m) = find(&data, b"<sheetData>") {
+                        let at = m + b"<sheetData>".len();
+                        out.push(vec![
+                            zp(sheet, Edit::Repeat { off: at, pattern: b"</x>".to_vec(), count: n, start: 0, step: 0, le: vec![] }, "xml:nest-flood (closing tags)".into()),
+                            zp(sheet, Edit::Repeat { off: at, pattern: b"<x>".to_vec(), count: n, start: 0, step: 0, le: vec![] }, format!("xml:nest-flood {} sheetData starts with {} nested unknown elements", sheet, n)),
+                        ]);
+                    }
+                    if let Some(m) = find(&data, b"<v>") {
+                        out.push(vec![zp(sheet, Edit::Repeat { off: m + 3, pattern: b"&#49;".to_vec(), count: n, start: 0, step: 0, le: vec![] }, format!("xml:entity-flood {} first <v> starts with {} character references", sheet, n))]);
+                        out.push(vec![zp(sheet, Edit::Repeat { off: m, pattern: b"<v>1</v>".to_vec(), count: n, start: 0, step: 0, le: vec![] }, format!("xml:child-flood {} first cell given {} <v> children", sheet, n))]);
+                    }
+                }
+            }
+            if let Some(data) = parts.part("xl/sharedStrings.xml") {
+                if let Some(m) = find(&data, b"<t>").or_else(|| find(&data, b"<t ")) {
+                    if let Some(gt) = data[m..].iter().position(|c| *c == b'>') {
+                        out.push(vec![zp("xl/sharedStrings.xml", Edit::Repeat { off: m + gt + 1, pattern: b"&amp;".to_vec(), count: n, start: 0, step: 0, le: vec![] }, format!("xml:entity-flood xl/sharedStrings.xml first <t> starts with {} entity references", n))]);
+                        out.push(vec![zp("xl/sharedStrings.xml", Edit::Repeat { off: m, pattern: b"<r><t>x</t></r><rPh><t>y</t></rPh>".to_vec(), count: n, start: 0, step: 0, le: vec![] }, format!("xml:child-flood xl/sharedStrings.xml first string item given {} rich-text and phonetic runs", n))]);
+                    }
+                }
+            }
+            // one element with very many attributes (attribute iterators that check for duplicate
+            // names compare each attribute with all earlier ones)
+            for (part, tag) in [("xl/workbook.xml", &b"<sheet "[..]), ("xl/_rels/workbook.xml.rels", b"<Relationship "), ("xl/styles.xml", b"<xf "), ("xl/sharedStrings.xml", b"<sst ")] {
+                if let Some(data) = parts.part(part) {
+                    if let Some(m) = find(&data, tag) {
+                        out.push(vec![zp(part, Edit::Repeat { off: m + tag.len(), pattern: b"a{#}=\"1\" ".to_vec(), count: n, start: 0, step: 1, le: vec![] }, format!("xml:attr-flood {} first {} element given {} attributes", part, String::from_utf8_lossy(tag).trim(), n))]);
+                    }
+                }
+            }
+            if let Some(sheet) = with_rows.as_ref() {
+                if let Some(data) = parts.part(sheet) {
+                    for tag in [&b"<c "[..], b"<row ", b"<f "] {
+                        if let Some(m) = find(&data, tag) {
+                            out.push(vec![zp(sheet, Edit::Repeat { off: m + tag.len(), pattern: b"a{#}=\"1\" ".to_vec(), count: n, start: 0, step: 1, le: vec![] }, format!("xml:attr-flood {} first {} element given {} attributes", sheet, String::from_utf8_lossy(tag).trim(), n))]);
+                        }
+                    }
+                }
+            }
         }
         Format::Ods => {
+            if let Some(data) = parts.part("content.xml") {
+                if let Some(m) = find(&data, b"<text:p>") {
+                    let at = m + b"<text:p>".len();
+                    out.push(vec![zp("content.xml", Edit::Repeat { off: at, pattern: b"&amp;".to_vec(), count: n, start: 0, step: 0, le: vec![] }, format!("xml:entity-flood content.xml first <text:p> starts with {} entity references", n))]);
+                    out.push(vec![zp("content.xml", Edit::Repeat { off: at, pattern: b"<text:span>a</text:span><text:s/>".to_vec(), count: n, start: 0, step: 0, le: vec![] }, format!("xml:child-flood content.xml first <text:p> given {} spans and spaces", n))]);
+                    out.push(vec![
+                        zp("content.xml", Edit::Repeat { off: at, pattern: b"</text:span>".to_vec(), count: n, start: 0, step: 0, le: vec![] }, "xml:nest-flood (closing tags)".into()),
+                        zp("content.xml", Edit::Repeat { off: at, pattern: b"<text:span>".to_vec(), count: n, start: 0, step: 0, le: vec![] }, format!("xml:nest-flood content.xml first <text:p> holds {} nested spans", n)),
+                    ]);
+                }
+            }
+            if let Some(data) = parts.part("content.xml") {
+                for tag in [&b"<table:table-cell "[..], b"<table:table-row ", b"<table:table ", b"<text:p"] {
+                    if let Some(m) = find(&data, tag) {
+                        out.push(vec![zp("content.xml", Edit::Repeat { off: m + tag.len(), pattern: b" a{#}=\"1\" ".to_vec(), count: n, start: 0, step: 1, le: vec![] }, format!("xml:attr-flood content.xml first {} element given {} attributes", String::from_utf8_lossy(tag).trim(), n))]);
+                    }
+                }
+            }
             if let Some(data) = parts.part("content.xml") {
                 if let Some(m) = find(&data, b"<table:table ") {
                     if let Some(gt) = data[m..].iter().position(|c| *c == b'>') {
